@@ -13,10 +13,6 @@ package ez
 //@   ensures err == nil ==> s != nil
 //@ extern func flag.DefaultFlagNameConfig() (c)
 //@   ensures c != nil
-//@ extern func transform.NewAliasMangler(tags) (m)
-//@   ensures m != nil && fresh(m)
-//@ extern func tagformat.NewTagReformattingMangler(tag, dec, enc) (m)
-//@   ensures m != nil && fresh(m)
 //@ extern func file.NewSource(path, dec) (s, err)
 //@   ensures err == nil ==> s != nil && fresh(s)
 //@ extern func file.NewWatchingSource(path, dec) (s, err)
